@@ -96,7 +96,7 @@ impl FileReader for MemReader {
             Answer::Unexpected => return Err(FileReaderError::Unexpected),
         }
         let Some(i) = self.files.iter().position(|(n, _)| n == path) else {
-            return Err(FileReaderError::IOErr(format!("no such file: {path}")));
+            return Err(FileReaderError::IOErr("No such file or directory (os error 2)".to_string()));
         };
         if self.detect_reread && self.imports.iter().any(|(_, _, fi)| *fi == i) {
             return Err(FileReaderError::FileAlreadyRead(path.to_string()));
